@@ -626,7 +626,10 @@ class ExpressionManager(object):
         :param value: The integer that must be promoted to ``FNode``.
         :return: The ``FNode`` containing the given ``integer`` as his payload.
         """
-        if not isinstance(value, int):
+        # bool is a subclass of int and True == 1 (with the same hash): Int(True) would be
+        # memoized with the payload True under the same key as Int(1), so that every later
+        # integer literal 1 in this environment would be represented (and printed) as "True".
+        if not isinstance(value, int) or isinstance(value, bool):
             raise UPTypeError("Expecting int, got %s" % type(value))
         return self.create_node(
             node_type=OperatorKind.INT_CONSTANT, args=tuple(), payload=value
